@@ -37,7 +37,7 @@ CLAIMED = {
                 "real default engine must equal the reference's. Laws of the reference are proved in Properties_C03.v for every sub-term evaluator (hence every fuel): short-circuit, if, "
                 "break/continue/return, block and function scoping, a parameter typed with a class accepts exactly the objects of that class (C03_class_typed_parameter), a method is not "
                 "entered with another class's object or a non-object (C03_method_refuses_other_classes), a constructor answers the object made for it (C03_constructor_answers_its_object), "
-                "an attribute read answers the attribute's own Boxed_Value (C03_attribute_identity). Nothing is claimed about programs that were not generated.",
+                "an attribute read answers the attribute's own Boxed_Value (C03_attribute_identity), an attribute created on the spot is the one later reads answer (C03_attribute_created_once). Nothing is claimed about programs that were not generated.",
         "design_ref": "DESIGN.md §6 C03, §11.2",
         "note": "The reference covers ints/bools/strings/vectors/maps, blocks, if, loops with break/continue, switch, functions with typed parameters/guards/recursion, lambdas with captures, "
                 "references vs copies, try/catch/finally, script classes; programs outside it (to_string/== of objects, const objects, methods named like engine functions, overloads whose "
